@@ -69,6 +69,8 @@ func suiteJSON(c *Ctx) {
 		}
 	}
 	jsonSingleColumn(c)
+	jsonMergeOnly(c)
+	jsonCrossBackend(c)
 	jsonWide(c)
 	jsonExportAcrossHandles(c)
 	jsonBloomDense(c)
@@ -167,6 +169,7 @@ func jsonCase(c *Ctx, k eqKind, variant int) {
 		return
 	}
 	if k.redis {
+		c.checkNoTTL([]string{"C10", "C19"}, k.name+" after Import under new keys")
 		// the exporter's keys must be untouched: every key present before has the same value after
 		after := c.mr.Dump()
 		if !dumpContains(after, dumpBefore) {
@@ -464,5 +467,92 @@ func jsonWide(c *Ctx) {
 			c.fail([]string{"C10"}, tk.name+"-roundtrip-state", fmt.Sprintf("topk over a wide sketch (redis=%v): imported copy differs", redis), name)
 		}
 		c.branch("wide-topk")
+	}
+}
+
+// jsonMergeOnly: a sketch that was filled only by Merge (its own update counter never moved), and
+// a sketch exported through a handle attached from the metadata key (whose handle-local fields
+// start at zero): their documents import like any other.
+func jsonMergeOnly(c *Ctx) {
+	for _, redis := range []bool{false, true} {
+		for r := 0; r < c.scale(3, 12); r++ {
+			for _, k := range []eqKind{eqCMS(redis), eqHLL(redis)} {
+				src, dst := k.build(c, 0), k.build(c, 0)
+				if src == nil || dst == nil {
+					continue
+				}
+				c.rep.Cases++
+				k.feed(c, src, append(randHist(c), 1, 2, 3))
+				var merr error
+				switch x := dst.(type) {
+				case cmsHandle:
+					merr = x.Merge(src.(cmsHandle))
+				case hllHandle:
+					merr = x.Merge(src.(hllHandle))
+				}
+				if merr != nil {
+					continue
+				}
+				doc, err := k.export(dst)
+				if err != nil {
+					continue
+				}
+				cp, ierr := k.imp(c, doc)
+				if ierr != nil || cp == nil {
+					c.fail([]string{"C10"}, k.name+"-import-fails", fmt.Sprintf("%s: Import of the export of a merge-only sketch failed: %v", k.name, ierr), k.name)
+					continue
+				}
+				sa, _ := k.absStr(dst)
+				sb, _ := k.absStr(cp)
+				if sa != sb || jsonQueries(k.name, dst) != jsonQueries(k.name, cp) {
+					c.fail([]string{"C10"}, k.name+"-roundtrip-state", fmt.Sprintf("%s: a sketch filled only by Merge does not survive Export/Import", k.name), map[string]interface{}{"original": sa, "copy": sb})
+				}
+				c.branch("merge-only-export")
+			}
+		}
+	}
+}
+
+// jsonCrossBackend: a document exported by an in-memory structure (it names no Redis keys) imported
+// into Redis-backed structures under new keys, twice: two independent copies under fresh non-empty
+// keys, each answering like the exporter.
+func jsonCrossBackend(c *Ctx) {
+	for r := 0; r < c.scale(3, 12); r++ {
+		for _, pair := range [][2]eqKind{{eqCMS(false), eqCMS(true)}, {eqHLL(false), eqHLL(true)}, {eqTopK(false), eqTopK(true)}, {eqCuckoo(false), eqCuckoo(true)}} {
+			km, kr := pair[0], pair[1]
+			c.mr.FlushAll()
+			a := km.build(c, 0)
+			if a == nil {
+				continue
+			}
+			c.rep.Cases++
+			km.feed(c, a, append(randHist(c), 1, 2, 3))
+			doc, err := km.export(a)
+			if err != nil {
+				continue
+			}
+			var c1, c2 interface{}
+			var e1, e2 error
+			res := safely(func() { c1, e1 = kr.imp(c, doc); c2, e2 = kr.imp(c, doc) })
+			c.op("Import.mem-document-into-redis." + kr.name)
+			if res.panicked || e1 != nil || e2 != nil || c1 == nil || c2 == nil {
+				// not every in-memory document is importable by the Redis variant (no property says so)
+				c.branch("cross-backend-import-refused")
+				continue
+			}
+			for _, key := range c.mr.Keys() {
+				if key == "" {
+					c.fail([]string{"C19", "C10"}, kr.name+"-import-under-empty-key", fmt.Sprintf("%s: Import under new keys of an in-memory document created the Redis key \"\"", kr.name), kr.name)
+					return
+				}
+			}
+			q1 := jsonQueries(kr.name, c1)
+			more := append(randHist(c), 7, 8, 9, 10)
+			kr.feed(c, c2, more)
+			if jsonQueries(kr.name, c1) != q1 {
+				c.fail([]string{"C19", "C10"}, kr.name+"-copies-not-independent", fmt.Sprintf("%s: two structures imported under new keys from one in-memory document share state: updating one changed the answers of the other", kr.name), map[string]interface{}{"kind": kr.name, "updates": more})
+			}
+			c.branch("cross-backend-import")
+		}
 	}
 }
